@@ -23,7 +23,6 @@ import (
 
 // ---- C09: framing under arbitrary chunking, truncation, oversize, stalls ----
 
-
 // vfChunkReader serves data in chunks ending at the given cut offsets.
 type vfChunkReader struct {
 	data        []byte
@@ -386,10 +385,10 @@ type vfC09Oversize struct {
 }
 
 type vfCountingReader struct {
-	data              []byte
-	pos, chunk        int
-	readsAfterPrefix  int
-	bytesAfterPrefix  int
+	data             []byte
+	pos, chunk       int
+	readsAfterPrefix int
+	bytesAfterPrefix int
 }
 
 func (r *vfCountingReader) Read(p []byte) (int, error) {
@@ -499,7 +498,9 @@ func TestVerifC09AtLimit(t *testing.T) {
 			}
 			return nil
 		},
-		Classify: func(c atLimit) ([]string, bool) { return []string{fmt.Sprintf("delta%+d", c.Delta)}, c.Delta >= -1 && c.Delta <= 0 },
+		Classify: func(c atLimit) ([]string, bool) {
+			return []string{fmt.Sprintf("delta%+d", c.Delta)}, c.Delta >= -1 && c.Delta <= 0
+		},
 	})
 }
 
